@@ -347,6 +347,44 @@ struct CompressedPGMIndex<K, Epsilon, EpsilonRecursive, Floating>::CompressedLev
             slopes_map.back() = slopes_table[*std::prev(last_slope)];
     }
 
+    // sel1 refers to compressed_intercepts of the same object, so it must be re-targeted whenever the level is copied
+    // or moved (the implicitly generated operations would leave it pointing into the source object)
+    CompressedLevel(const CompressedLevel &other)
+        : keys(other.keys),
+          slopes_map(other.slopes_map),
+          intercept_offset(other.intercept_offset),
+          compressed_intercepts(other.compressed_intercepts),
+          sel1(&compressed_intercepts) {}
+
+    CompressedLevel(CompressedLevel &&other)
+        : keys(std::move(other.keys)),
+          slopes_map(std::move(other.slopes_map)),
+          intercept_offset(other.intercept_offset),
+          compressed_intercepts(std::move(other.compressed_intercepts)),
+          sel1(&compressed_intercepts) {}
+
+    CompressedLevel &operator=(const CompressedLevel &other) {
+        if (this != &other) {
+            keys = other.keys;
+            slopes_map = other.slopes_map;
+            intercept_offset = other.intercept_offset;
+            compressed_intercepts = other.compressed_intercepts;
+            sel1.set_vector(&compressed_intercepts);
+        }
+        return *this;
+    }
+
+    CompressedLevel &operator=(CompressedLevel &&other) {
+        if (this != &other) {
+            keys = std::move(other.keys);
+            slopes_map = std::move(other.slopes_map);
+            intercept_offset = other.intercept_offset;
+            compressed_intercepts = std::move(other.compressed_intercepts);
+            sel1.set_vector(&compressed_intercepts);
+        }
+        return *this;
+    }
+
     inline size_t operator()(const std::vector<Floating> &slopes, size_t i, K k) const {
         auto pos = to_int64(get_slope(slopes, i) * (k - keys[i])) + get_intercept(i);
         return pos > 0 ? size_t(pos) : 0ull;
